@@ -119,6 +119,10 @@ func groupFlows(texts []obsText, fm *flowMap) (map[string]*flowObs, []obsText) {
 			}
 			continue
 		}
+		if t.Pseudo == "first-letter" && !strings.Contains(fm.flows[key].Want, pagesMark) && strings.Trim(t.Text, "0123456789. ") == "" {
+			// a counter promoted to first letter (the footnote call that starts a paragraph): the words have no digits
+			continue
+		}
 		k := [2]interface{}{key, t.Page}
 		a := accs[k]
 		if a == nil {
